@@ -1,10 +1,18 @@
 import Lean
 
 /-!
-`peel lem n base_proj`: for a goal `P { x with f := v, … }` (a record built from the projections of `x`),
-refine with `lem (s := x) ?_ rfl … rfl` (`n` times `rfl`): the frame lemma `lem` says that `P` only depends on
-`n` projections, each unchanged by the update.  The base record `x` is read off the first field of the
-record (which no function of the models ever updates).
+Two small tactics for invariant proofs over the transaction models.
+
+`peel lem n`: the goal is `P e` where `lem : P s → s'.f₁ = s.f₁ → … → s'.fₙ = s.fₙ → P s'` is a frame lemma
+for `P` (it only depends on `n` projections).
+* If `e` is a record expression `{ x with … }` (a constructor application whose first field is a projection
+  of `x`; no function of the models ever updates the first field), refine with `lem (s := x) ?_ rfl … rfl`.
+* If `e` is a call `f a₁ … aₖ` (or its first component), take for `x` the first argument that is a state and
+  discharge the `n` side conditions with the generated `@[simp]` frame lemmas (`rfl` or `simp`).
+Either way the remaining goal is `P x`; the tactic fails if a side condition cannot be discharged.
+
+`inv_auto lem n [lemmas]`: repeat { assumption | apply one of `lemmas` (syntactic match) | peel } until the goal
+is closed; fails otherwise.
 -/
 open Lean Elab Tactic Meta
 
@@ -12,24 +20,52 @@ syntax (name := peelTac) "peel " ident num : tactic
 
 @[tactic peelTac] def evalPeel : Tactic := fun stx => do
   match stx with
-  | `(tactic| peel $lem:ident $n:num) =>
+  | `(tactic| peel $lem:ident $n:num) => withMainContext do
     let g ← getMainGoal
-    let t ← instantiateMVars (← g.getType)
+    let t := (← instantiateMVars (← g.getType)).cleanupAnnotations
     unless t.isApp do throwError "peel: goal is not an application"
     let e := t.appArg!
     let e ← zetaReduce (← instantiateMVars e)
-    let e := e.consumeMData
+    let e ← whnfCore e.consumeMData
+    let stTy ← whnfR (← inferType e)
     let fn := e.getAppFn
-    unless fn.isConst && (fn.constName!.getString! == "mk") do
-      throwError "peel: the goal is not about a record expression"
-    let a := e.getAppArgs[0]!
-    let base ← match a with
-      | .proj _ _ x => pure x
-      | _ =>
-        if a.isApp && a.getAppFn.isConst && a.getAppNumArgs == 1 then pure a.appArg!
-        else throwError "peel: first field is not a projection"
-    let b ← Term.exprToSyntax base
-    let rfls : Array (TSyntax `term) := (List.replicate n.getNat (← `(rfl))).toArray
-    let tac ← `(tactic| refine $lem (s := $b) ?_ $rfls*)
-    evalTactic tac
+    let holes : Array (TSyntax `term) := (List.replicate n.getNat (← `(?_))).toArray
+    if fn.isConst && (fn.constName!.getString! == "mk") && e.getAppNumArgs > 0 then
+      let a := e.getAppArgs[0]!
+      let base ← match a with
+        | .proj _ _ x => pure x
+        | _ =>
+          if a.isApp && a.getAppFn.isConst && a.getAppNumArgs == 1 then pure a.appArg!
+          else throwError "peel: first field is not a projection"
+      let b ← Term.exprToSyntax base
+      let rfls : Array (TSyntax `term) := (List.replicate n.getNat (← `(rfl))).toArray
+      evalTactic (← `(tactic| refine $lem (s := $b) ?_ $rfls*))
+    else
+      -- a call, possibly under `.1`
+      let call := if e.isAppOfArity ``Prod.fst 3 then e.appArg! else
+        match e with | .proj _ 0 x => x | _ => e
+      let mut base? : Option Expr := none
+      for a in call.getAppArgs do
+        if base?.isNone then
+          let ty ← whnfR (← inferType a)
+          if ← isDefEq ty stTy then base? := some a
+      let some base := base? | throwError "peel: no state argument found"
+      let b ← Term.exprToSyntax base
+      let others := (← getGoals).drop 1
+      let gs ← evalTacticAt (← `(tactic| refine $lem (s := $b) ?main $holes*)) g
+      match gs with
+      | [] => setGoals others
+      | main :: sides =>
+        for sg in sides do
+          let rest ← evalTacticAt (← `(tactic| first | rfl | (simp; done))) sg
+          unless rest.isEmpty do throwError "peel: side condition not discharged"
+        setGoals (main :: others)
   | _ => throwUnsupportedSyntax
+
+syntax "inv_auto " ident num " [" term,* "]" : tactic
+macro_rules
+  | `(tactic| inv_auto $fr $n [$ls,*]) => `(tactic|
+      (((try dsimp only) <;> repeat' (first
+        | assumption
+        $[| with_reducible apply $ls]*
+        | peel $fr $n)) <;> done))
